@@ -24,6 +24,9 @@ struct SstMetadata { setsum: [u8; 32], first_key: Vec<u8>, last_key: Vec<u8>, sm
 uninterp spec fn le(a: Seq<u8>, b: Seq<u8>) -> bool;
 #[verifier::external_body]
 fn key_le(a: &Vec<u8>, b: &Vec<u8>) -> (r: bool) ensures r == le(a@, b@) { unimplemented!() }
+// `<` on Vec<u8>: below and different
+#[verifier::external_body]
+fn key_lt(a: &Vec<u8>, b: &Vec<u8>) -> (r: bool) ensures r == (le(a@, b@) && a@ != b@) { unimplemented!() }
 #[verifier::external_body]
 fn timestamps_out_of_order(m: &SstMetadata) -> (r: SError) { unimplemented!() }
 spec fn overlap(a: SstMetadata, b: SstMetadata) -> bool { le(a.first_key@, b.last_key@) && le(b.first_key@, a.last_key@) }
@@ -40,7 +43,8 @@ impl AdjacencyList {
 
 //@ extract lsmtk/src/tree/recover.rs | fn key_range_overlap
 //@ ret r
-//@ rewrite-re X7 `(\w+)\.first_key <= (\w+)\.last_key` => `key_le(&\1.first_key, &\2.last_key)`
+//@ rewrite-re? X7 `(\w+)\.first_key <= (\w+)\.last_key` => `key_le(&\1.first_key, &\2.last_key)`
+//@ rewrite-re? X7 `(\w+)\.first_key < (\w+)\.last_key` => `key_lt(&\1.first_key, &\2.last_key)`
 //@ post <<
         r == overlap(*lhs, *rhs),
 //@ >>
